@@ -72,6 +72,8 @@ MixedInit ==
 ConvInit ==
   \/ \E m \in {0, 1, 3, 5, 7, -1, -3, -7}, j \in {0, 1, 5, 9, 10, 20, 31, 39} :
         case = [family |-> "conv", form |-> "exact", m |-> m, j |-> j]          \* ns = m * 5^9 * 2^j, seconds = m * 2^(j-9)
+  \/ \E m \in {1, 3, 5, 7, -1, -5}, j \in 10..16 :                         \* seconds = m * 2^-j: value * 1e9 = m * 5^9 / 2^(j-9) has a fractional part
+        case = [family |-> "conv", form |-> "truncate", m |-> m, j |-> j, ns |-> TruncDiv(m * 1953125, 2 ^ (j - 9))]   \* truncation toward zero
   \/ \E u \in Grid :
         case = [family |-> "conv", form |-> "time_try_from", u |-> u, ok |-> (~DimCheck) \/ u = SEC]
   \/ \E u \in Grid :
